@@ -429,7 +429,7 @@ func (g *Gen) Device(t *GConf, nedits int, unmanaged bool) (*GConf, []string) {
 			}
 			continue
 		}
-		switch g.Rng.Intn(25) {
+		switch g.Rng.Intn(26) {
 		case 0: // generated names on device
 			for _, a := range d.ACLs {
 				old := a.Name
@@ -611,6 +611,25 @@ func (g *Gen) Device(t *GConf, nedits int, unmanaged bool) (*GConf, []string) {
 					d.ACLs = append(d.ACLs, &GACL{n, []string{g.ACE(d), g.denyAll()}})
 					d.Binds = append(d.Binds, [3]string{n, "out", intf})
 					ops = append(ops, "binding-extra")
+				}
+			}
+		case 25: // IOS: several device routes to one destination, target has another one
+			if g.Kind == "ios" && len(d.Routes) > 0 {
+				i := g.Rng.Intn(len(d.Routes))
+				w := strings.Fields(d.Routes[i])
+				if strings.Count(w[len(w)-1], ".") == 3 {
+					base := strings.Join(w[:len(w)-1], " ")
+					var l []string
+					l = append(l, d.Routes[:i]...)
+					for k := 2 + g.Rng.Intn(2); k > 0; k-- {
+						l = append(l, fmt.Sprintf("%s 10.8.%d.%d", base, 2+k, 1+g.Rng.Intn(200)))
+					}
+					if g.Rng.Intn(3) == 0 {
+						l = append(l, d.Routes[i]) // the target's route is there too
+					}
+					l = append(l, d.Routes[i+1:]...)
+					d.Routes = l
+					ops = append(ops, "route-ecmp-on-device")
 				}
 			}
 		case 24: // device covers by N/16 what the target covers by N/24 and 10/8
